@@ -88,6 +88,9 @@ impl Prop for C19 {
         for s in &self.sets18 {
             d.push(Dom::new(format!("index:{}/{}", s.l.tag(), s.name), seqs_len(s.menu.len() as u64, s.lo, s.hi), s.block * 4));
         }
+        d.push(Dom::new(format!("index: interleaved add / prepare histories<={}", self.hist_depth + 5), seqs_len(5, 1, self.hist_depth + 5), 500).note(
+            "every sequence over {add x3 (a short title, a two-word title, a word-less title), prepare x2} on ONE store: the counter vector has to follow the record count through every interleaving",
+        ));
         d
     }
     fn run(&self, dom: usize, idx: u64, cx: &mut Cx) {
@@ -219,6 +222,32 @@ impl Prop for C19 {
                     }
                     Err(_) => cx.machinery("C19: history thread could not be joined".into()),
                 }
+            }
+            d if d == 4 + LANGS19.len() + self.sets18.len() => {
+                let seq = seq_at(5, 1, self.hist_depth + 5, idx);
+                let titles = ["aba", "ab ba", "--"];
+                let queries = ["ab", "ba a"];
+                let mut st = St::new(L::None);
+                cx.eval();
+                cx.state();
+                cx.tr(seq.len() as u64);
+                cx.mark(|| format!("index history {:?}", seq));
+                let mut n = 0usize;
+                let r = guard(|| {
+                    for op in &seq {
+                        if *op < 3 {
+                            let _ = st.add(&rec(100 + n, titles[*op], n));
+                            n += 1;
+                        } else {
+                            let q = lucid_suggest_core::tokenize_query(queries[*op - 3], &st.store.lang);
+                            st.store.index.borrow_mut().prepare(&q.to_ref(), 1);
+                        }
+                    }
+                });
+                if seq.iter().filter(|o| **o >= 3).count() >= 2 && seq.iter().any(|o| *o < 3) {
+                    cx.nontrivial();
+                }
+                self.judge(cx, r, || format!("one store, operations {:?}", seq.iter().map(|o| if *o < 3 { format!("add({:?})", titles[*o]) } else { format!("prepare({:?})", queries[*o - 3]) }).collect::<Vec<_>>()));
             }
             d => {
                 let set = &self.sets18[d - 4 - LANGS19.len()];
